@@ -197,6 +197,17 @@ def structured_sets():
             for inc in incs:
                 out.append((inc, g))
                 out.append((g, (x,)))          # the other way round: children included, the inner node excluded
+    # large selections: all roots, all leaves, all inner categories, everything but one, everything but one subtree
+    roots = tuple(M.ROOTS)
+    leaves_all = tuple(n for n in M.ORDER if not M.CHILDREN[n])
+    for big in (roots, leaves_all, tuple(inner), tuple(M.ORDER)):
+        out.append((big, None))
+        out.append((big, ()))
+        for x in inner:
+            out.append((big, (x,)))
+    for x in M.ORDER:
+        out.append((tuple(n for n in M.ORDER if n != x), None))
+        out.append((tuple(n for n in roots if n != x) + ((M.CHILDREN[x][0],) if M.CHILDREN[x] else ()), None))
     seen = set()
     uniq = []
     for p_ in out:
@@ -288,8 +299,8 @@ def run(ctx: Ctx):
                 check_pair(ctx, kp, inc, exc, j)
                 ctx.mon('structured_pairs')
         for j in range(50000 // shard_n):
-            inc = tuple(rng.sample(M.ORDER, rng.randint(3, 15)))
-            exc = tuple(rng.sample(M.ORDER, rng.randint(0, 10)))
+            inc = tuple(rng.sample(M.ORDER, rng.choice([3, 5, 8, 12, 15, 16, 17, 20, 25, 30, 36, rng.randint(3, 36)])))
+            exc = tuple(rng.sample(M.ORDER, rng.choice([0, 1, 2, 5, 10, 16, 20])))
             check_pair(ctx, kp, inc, exc, rng.randrange(16), do_match=(j % 3 == 0))
         ctx.sample({'shard': shard_i, 'pairs_enumerated': n, 'first_include': big[shard_i] if shard_i < len(big) else None})
         ctx.exhaustive = True
